@@ -1,6 +1,6 @@
 SPECIFICATION Spec
 CONSTANTS
-  HINIT <- MC_HINIT
+  HINIT <- T_HINIT
   MAXOBJ = 6
   MAXDEPTH = 3
   MAXRANK = 6
